@@ -141,6 +141,16 @@ def run(sc, tier, seed):
     mv = _validate_jobs(sc, [("migration", f, "TopicMigrateTrace.tla", "TopicMigrateTrace.cfg") for f in meta2["trace_files"]]).get("migration", EMPTY)
     R.states += mv["states"]
     R.handle_validation(mv, what="restart inside the topic store migration loses the alert state or fails (verdict level)")
+    # 5. concurrent transactions on the one shared topic store (TopicStoreTx.tla)
+    R.add_model(V.model_check(sc, MODULE_DIR, "TopicStoreTxMC.tla", "TopicStoreTx.cfg", workers=2, timeout=600))
+    shared = V.model_check(sc, MODULE_DIR, "TopicStoreTxMC.tla", "TopicStoreTx_shared.cfg", workers=2, timeout=600,
+                           expect_violation=["ReadOwnTopic", "WriteOwnTopic"])
+    R.notes["shared_bucket_slot_model_counterexample"] = shared["violated"] or "none"
+    out3, meta3 = V.run_driver(sc, "c08tx", tier, seed, timeout=1200)
+    R.add_meta(meta3)
+    xv = _validate_jobs(sc, [("transactions", f, "TopicStoreTxTraceMC.tla", "TopicStoreTxTrace.cfg") for f in meta3["trace_files"]]).get("transactions", EMPTY)
+    R.states += xv["states"]
+    R.handle_validation(xv, what="a transaction on the shared topic store touched another topic's bucket (verdict level)")
     verdict_rejected = bool(val["rejections"])
     if drift:
         for d in drift[:5]:
@@ -157,8 +167,16 @@ def replay(sc, path):
     """Re-run the history of a saved violation on the real code (every crash point, task restart) and
     validate it again at verdict level."""
     seg = os.path.join(path, "segment.ndjson")
-    out, meta = V.run_driver(sc, "c08", "quick", 1, timeout=600, args=["replay=" + seg], outname="drv-replay")
-    jobs = [("verdict", f) + VERDICT for f in meta["trace_files"]]
+    first = open(seg).readline()
+    if '"kind":"tx"' in first or '"kind":"mig"' in first:
+        # the transaction / migration drivers are small: re-run them completely
+        drv, spec = ("c08tx", ("TopicStoreTxTraceMC.tla", "TopicStoreTxTrace.cfg")) if '"kind":"tx"' in first \
+            else ("c08mig", ("TopicMigrateTrace.tla", "TopicMigrateTrace.cfg"))
+        out, meta = V.run_driver(sc, drv, "quick", 1, timeout=1200, outname="drv-replay")
+        jobs = [("verdict", f) + spec for f in meta["trace_files"]]
+    else:
+        out, meta = V.run_driver(sc, "c08", "quick", 1, timeout=600, args=["replay=" + seg], outname="drv-replay")
+        jobs = [("verdict", f) + VERDICT for f in meta["trace_files"]]
     val = _validate_jobs(sc, jobs, parallel=2).get("verdict", EMPTY)
     kfs = V.known_findings("C08")
     unlisted = [k for k in val["kf"] if k not in kfs]
